@@ -192,9 +192,11 @@ func eqVals(a, b Val) (bool, *PSError) {
 	// RESTRICTION: eq/ne are implemented for numbers, strings, names and
 	// pairs of dictionaries only; everything else is a typecheck.
 	simple := func(v Val) bool {
-		switch v.(type) {
-		case Int, Real, Str, Name:
+		switch v := v.(type) {
+		case Int, Real, Str:
 			return true
+		case Name:
+			return !v.X // RESTRICTION: literal names only
 		}
 		return false
 	}
@@ -227,9 +229,10 @@ func eqVals(a, b Val) (bool, *PSError) {
 }
 
 func keyOf(v Val) (string, bool) {
-	// RESTRICTION: dictionary keys must be names.
+	// RESTRICTION: dictionary keys must be literal names (an executable name
+	// object taken out of a procedure is a different type in the library).
 	n, ok := v.(Name)
-	return n.S, ok
+	return n.S, ok && !n.X
 }
 
 func (m *M) bind(p Arr, seen map[*ArrStore]bool) {
@@ -465,6 +468,9 @@ func (m *M) runOp(name string) error {
 		if e := m.need("Nd"); e != nil {
 			return e
 		}
+		if m.top(1).(Name).X {
+			return perr("typecheck", "RESTRICTION: literal name required")
+		}
 		k := m.top(1).(Name).S
 		f := m.top(0).(*Dict)
 		m.FontDir.M[k] = f
@@ -473,6 +479,9 @@ func (m *M) runOp(name string) error {
 	case "findfont":
 		if e := m.need("N"); e != nil {
 			return e
+		}
+		if m.top(0).(Name).X {
+			return perr("typecheck", "RESTRICTION: literal name required")
 		}
 		k := m.top(0).(Name).S
 		f, ok := m.FontDir.M[k]
@@ -488,6 +497,8 @@ func (m *M) runOp(name string) error {
 		key, ok1 := m.top(2).(Name)
 		inst := m.top(1)
 		cat, ok2 := m.top(0).(Name)
+		ok1 = ok1 && !key.X // RESTRICTION: literal names only
+		ok2 = ok2 && !cat.X
 		if !ok1 || !ok2 {
 			if ok2 {
 				if _, known := m.Resources[cat.S]; !known {
@@ -517,13 +528,17 @@ func (m *M) runOp(name string) error {
 			return perr("stackunderflow", name)
 		}
 		cat, ok := m.top(0).(Name)
-		if !ok {
+		if !ok || cat.X {
 			return perr("typecheck", "findresource category")
 		}
 		cd, ok := m.Resources[cat.S]
 		if !ok {
-			switch m.top(1).(type) {
-			case Name, Str:
+			switch kv := m.top(1).(type) {
+			case Str:
+			case Name:
+				if kv.X {
+					return several("undefined", "typecheck", "undefinedresource")
+				}
 			default:
 				return several("undefined", "typecheck", "undefinedresource")
 			}
@@ -532,6 +547,9 @@ func (m *M) runOp(name string) error {
 		var k string
 		switch kv := m.top(1).(type) {
 		case Name:
+			if kv.X {
+				return &PSError{Name: "typecheck", Alt: []string{"undefinedresource"}}
+			}
 			k = kv.S
 		case Str:
 			k = string(kv.Bytes())
